@@ -99,7 +99,11 @@ class Check:
         before = str(m)
         view0 = message_view(m)[0]
         steps = 0
-        ro1 += m
+        try:
+            ro1 += m
+        except Exception:
+            # the merge is refused (or the running order is outside the guards): the message must still be intact
+            return ('a merge that raised modified the message object' if (str(m) != before or message_view(m)[0] != view0) else None), steps
         if str(m) != before:
             return 'the merge modified the message object', steps
         if message_view(m)[0] != view0:
@@ -117,9 +121,12 @@ class Check:
             if message_view(m)[0] != view0:
                 return 'a later %s on the running order changed what the merged message object reports through its accessors' % d[3].tag, steps
         ro2 = RunningOrder.from_string(ro_text)
-        ro2 += m
         ro3 = RunningOrder.from_string(ro_text)
-        ro3 += MosFile.from_string(msg_text)
+        try:
+            ro2 += m
+            ro3 += MosFile.from_string(msg_text)
+        except Exception:
+            return None, steps
         steps += 1
         if str(ro2) != str(ro3):
             return 'merging the same message object again differs from merging a freshly parsed copy', steps
